@@ -29,7 +29,10 @@ RULE = (
     "references, FSArray / FSList elements, TOP-ranged features or shared collections; in 40% collections sit where ordinary "
     "structures do (FSArray / primitive array / FSList under a TOP-ranged feature, an FSList head, nested in an FSArray; "
     "elements preferably not indexed), in 25% one feature name is declared on unrelated types with different ranges "
-    "(xmicommon.collections_as_targets / same_name_features); type_system_mode FULL / MINIMAL, "
+    "(xmicommon.collections_as_targets / same_name_features); in 30% the indexed structure with the largest explicit id is added "
+    "exactly when that id is the generator's next one and a sofa byte array without id draws its id during the save; in 30% "
+    "some indexed structures are taken over from another CAS (created without a sofa, indexed in a view of a second CAS, then "
+    "added to the CAS under test; xmicommon.build_cas); type_system_mode FULL / MINIMAL, "
     "pretty_print and ensure_ascii alternate.  A case is non-trivial when it has >= 2 structures and a reference or "
     "collection slot is set."
 )
@@ -84,9 +87,93 @@ def make_scenario(sub, k, big=False):
     if r2.random() < 0.4:
         wide["coll_targets"] = xc.collections_as_targets(r2, cassis, tspec, cspec, above=above,
                                                          schema=C02.schema2(cassis, tspec, da_feats))
+    # fourth-wave widening (own streams): explicit ids at the edge of the id generator with a sofa byte array that draws its
+    # id during the save; indexed structures taken over from another CAS (xmicommon.build_cas)
+    r3, r4 = random.Random(sub ^ 0xED6E), random.Random(sub ^ 0x7A4E)
+    if r3.random() < 0.3:
+        wide["edge_ids"] = edge_ids(r3, cspec)
+    if r4.random() < 0.3 and not C02.in_time(cspec):
+        wide["taken_over"] = xc.taken_over(r4, cspec)
     return {"tspec": tspec, "da_feats": da_feats, "cspec": cspec,
             "cfg": {"mode": MODES[k % 2], "pretty": (k // 2) % 2 == 0, "ascii": (k // 4) % 2 == 0, "pruned": pruned,
                     "array_knobs": knobs, "wide": wide}}
+
+
+def edge_ids(r, cspec):
+    """Explicit ids at the edge of the id generator (clause "all ids are distinct"): the indexed structure with the largest id
+    is added right after the id just below it has been reserved, i.e. with exactly the id the generator would hand out next,
+    and some sofa holds a byte array without id, which draws its id while the document is written.  Only which structure
+    carries which id changes (two structures swap ids, or an indexed one moves to the free id below the largest): the set of
+    ids the generator has seen, hence C02.id_plan / next_id and the distance of the other explicit ids from the generator,
+    stay what they were.  Returns a description, or None when the scenario was left alone."""
+    from harness.props import xmicommon as xc
+    objs, views = cspec["objs"], cspec["views"]
+    by = {o["o"]: o for o in objs}
+    order = xc._member_order(cspec)
+    if not order or any(by[l]["id"] is None for l in order) or C02.in_time(cspec):
+        return None
+    nxt = C02.next_id(cspec)
+
+    def swap(a, b):
+        a["id"], b["id"] = b["id"], a["id"]
+
+    top = max(order, key=lambda l: by[l]["id"])
+    j = order.index(top)
+    if j == 0 and len(order) > 1:
+        j = r.randrange(1, len(order))
+        swap(by[top], by[order[j]])
+        top = order[j]
+    big = by[top]["id"]
+    how = "already"
+    if max([by[l]["id"] for l in order[:j]] + [len(views)]) != big - 1:
+        if j == 0:
+            return None
+        mover = by[order[r.randrange(0, j)]]
+        holder = next((o for o in objs if o["id"] == big - 1), None)
+        if holder is None:
+            mover["id"] = big - 1
+            how = "moved"
+        else:
+            swap(mover, holder)
+            how = "swapped"
+    assert C02.next_id(cspec) == nxt and not C02.ids_clash(cspec)
+    # something that draws a fresh id during the save: a sofa byte array without id
+    arrays = [by[v["array"]] for v in views if v.get("array") is not None]
+    consumer = "present"
+    if not any(a["id"] is None for a in arrays):
+        mem = set(order)
+        loose = [a for a in arrays if a["o"] not in mem]
+        ann_views = {o["slots"]["sofa"]["sofa"] for o in objs if o["slots"].get("sofa")}
+        free = [v for v in views if v["name"] not in ann_views and v.get("array") is None]
+        if loose:
+            r.choice(loose)["id"] = None
+            consumer = "id removed"
+        elif free:
+            lab = max(o["o"] for o in objs) + 1
+            objs.append({"o": lab, "type": "uima.cas.ByteArray", "id": None,
+                         "slots": {"elements": {"list": [{"i": r.choice([0, 255, 10])} for _ in range(r.choice([0, 1, 3]))]}}})
+            v = r.choice(free)
+            v["array"], v["text"] = lab, None
+            consumer = "added"
+        else:
+            consumer = None
+    return {"how": how, "sofa_array": consumer}
+
+
+def build(cassis, sc):
+    """C02.build; scenarios with structures taken over from another CAS go through xmicommon.build_cas (same steps, plus the
+    source CAS)."""
+    if not sc["cspec"].get("prior"):
+        return C02.build(cassis, sc)
+    from harness.props import xmicommon as xc
+    ts = C02.build_ts(cassis, sc["tspec"], sc["da_feats"])
+    cas, views, objs = xc.build_cas(cassis, ts, sc["cspec"])
+    for i, v in enumerate(sc["cspec"]["views"]):
+        if v.get("uri") is not None:
+            views[i].sofa_uri = v["uri"]
+        if v.get("array") is not None:
+            views[i].sofa_array = objs[v["array"]]
+    return ts, cas, views, objs
 
 
 def generate(rng, tier):
@@ -97,10 +184,15 @@ def generate(rng, tier):
 
 def run_impl(cassis, sc):
     cfg = sc["cfg"]
-    _ts, cas, _views, objs = C02.build(cassis, sc)
+    _ts, cas, _views, objs = build(cassis, sc)
     data = C02._to_json(cas, cfg["mode"], cfg["pretty"], cfg["ascii"], "str")
     doc = J.parse(data)
-    return {"doc": doc, "canon": scen.canon(cas, "json"), "ids": {str(l): o.xmiID for l, o in objs.items()}}
+    ids = {str(l): o.xmiID for l, o in objs.items()}
+    try:
+        cc = scen.canon(cas, "json")
+    except RuntimeError as e:          # the id-keyed observation does not exist: two reachable structures carry one id
+        return {"doc": doc, "canon": None, "canon_error": str(e), "ids": ids}
+    return {"doc": doc, "canon": cc, "ids": ids}
 
 
 def oracle(cassis, sc, obs):
@@ -108,6 +200,8 @@ def oracle(cassis, sc, obs):
     msg = J.closed_problems(doc)
     if msg:
         return "closed: " + msg
+    if want is None:
+        return "closed: in memory after the save: " + obs["canon_error"]
     es = J.entries(doc)
     sofa_ids = sorted(i for i, m in es if J._is_sofa(m))
     fs_ids = sorted(i for i, m in es if not J._is_sofa(m))
@@ -134,6 +228,8 @@ def oracle(cassis, sc, obs):
 
 def render(sc, obs):
     import cassis
+    if obs["canon"] is None:
+        return None
     schema = C02.schema2(cassis, sc["tspec"], sc["da_feats"])
     names = [t["name"] for t in sc["tspec"]] + ([C02.DA] if sc["da_feats"] else [])
     mode = {"FULL": "MFull", "MINIMAL": "MMinimal", "NONE": "MNone"}[sc["cfg"]["mode"]]
@@ -147,6 +243,10 @@ nontrivial = C02.nontrivial
 
 def shrink_candidates(sc):
     for c in C02.shrink_candidates(sc):
+        yield c
+    for i in range(len(sc["cspec"].get("prior") or [])):
+        c = copy.deepcopy(sc)
+        del c["cspec"]["prior"][i]
         yield c
     # fewer index members
     ms = sc["cspec"]["members"]
